@@ -472,9 +472,9 @@ func runC16(e *Env) {
 				}
 			}
 		}
-		k := 16
+		k := 8
 		if e.Thorough {
-			k = 3
+			k = 2
 		}
 		if cyc || i%k == 0 {
 			cc := cfgs[i]
